@@ -81,14 +81,52 @@ def install(world):
         return ret
     sa.output = output
 
+    # what the thread's table copies hold at the moment they are discarded (thread_exit), i.e. what a scan left behind
+    def wrap_exit(cls, tag):
+        orig_exit = cls.thread_exit
+
+        def thread_exit():
+            d = _dirty(cls)
+            if d is not None:
+                world.log(ev='cleanup', db=tag, dirty=d)
+            return orig_exit()
+        cls.thread_exit = staticmethod(thread_exit)
+    wrap_exit(SSH2_KexDB, 'ssh2')
+    wrap_exit(SSH1_KexDB, 'ssh1')
+
     orig_worker = sa.target_worker_thread
+    gate = threading.Condition()
 
     def target_worker_thread(host, port, shared_aconf):
         pol = getattr(shared_aconf, 'policy', None)
-        world.log(ev='begin', target='%s:%d' % (host, port), dirty2=_dirty(SSH2_KexDB), dirty1=_dirty(SSH1_KexDB),
+        label = '%s:%d' % (host, port)
+        world.log(ev='begin', target=label, dirty2=_dirty(SSH2_KexDB), dirty1=_dirty(SSH1_KexDB),
                   shared_policy_errors=len(pol._errors) if pol is not None else 0)
-        ret = orig_worker(host, port, shared_aconf)
-        world.log(ev='end', target='%s:%d' % (host, port), ret=ret[0], dirty2=_dirty(SSH2_KexDB), dirty1=_dirty(SSH1_KexDB),
+        try:
+            ret = orig_worker(host, port, shared_aconf)
+        except BaseException as e:
+            world.log(ev='end', target=label, ret='BaseException:%s' % type(e).__name__, dirty2=_dirty(SSH2_KexDB), dirty1=_dirty(SSH1_KexDB),
+                      shared_policy_errors=len(pol._errors) if pol is not None else 0)
+            _wait_turn(world, gate, label)
+            raise
+        world.log(ev='end', target=label, ret=ret[0], dirty2=_dirty(SSH2_KexDB), dirty1=_dirty(SSH1_KexDB),
                   shared_policy_errors=len(pol._errors) if pol is not None else 0)
+        _wait_turn(world, gate, label)
         return ret
     sa.target_worker_thread = target_worker_thread
+
+
+def _wait_turn(world, gate, label):
+    """Impose the scenario's completion order (world.finish_order: list of target labels) on the worker threads."""
+    order = getattr(world, 'finish_order', None)
+    if not order:
+        return
+    with gate:
+        while True:
+            i = getattr(world, 'finish_idx', 0)
+            if i >= len(order) or order[i] == label or label not in order[i:]:
+                break
+            gate.wait(timeout=0.05)
+        if i < len(order) and order[i] == label:
+            world.finish_idx = i + 1
+        gate.notify_all()
